@@ -4,7 +4,9 @@ open Driver ScionTime.F64 ScionTime.Pll
 
 /-- ops:
   pll.new                                                   -> ok
-  pll.do <epoch> <sec> <nsec> <offset> <weight:hex16> pow=<hex16>
+  pll.do <epoch> <sec> <nsec> <offset> <weight:hex16> pow=<hex16> [rc]
+      (rc: the harness's clock moves its epoch on inside Step, as driver/clocks does; Do reads the
+       epoch only before any Step, so the model's answer is the same)
       -> ok e=<epoch> m=<mode> t0=<sec>:<ns> t=<sec>:<ns> a=<hex16> b=<hex16> i=<hex16> [step:<d>] [adj:<off>:<dur>:<hex16>]
        | panic explicit:unexpected_clock_behavior | panic explicit:unexpected_PLL_mode
   (f64.* ops are answered as in drv_f64)
@@ -18,20 +20,23 @@ def fmtAction : Action → String
 def fmtState (s : State) : String :=
   s!"e={s.epoch} m={s.mode} t0={fmtTime s.t0} t={fmtTime s.t} a={fmtF s.a} b={fmtF s.b} i={fmtF s.i}"
 
+def pllDo (s : State) (e sec ns off w pw : String) : State × String :=
+  match parseNat? e, parseInt? sec, parseInt? ns, parseInt? off, parseF? w, (kv? [pw] "pow").bind parseF? with
+  | some e, some sec, some ns, some off, some w, some pw =>
+    if e < 2 ^ 64 ∧ 0 ≤ ns ∧ ns < 1000000000 ∧ -1099511627776 ≤ sec ∧ sec ≤ 1099511627776
+        ∧ minI64 ≤ off ∧ off ≤ maxI64 then
+      match ScionTime.Pll.step s e (sec * 1000000000 + ns) off w pw with
+      | .ok s' acts => (s', s!"ok {fmtState s'}{String.join (acts.map fmtAction)}")
+      | .panic .clock => (s, "panic explicit:unexpected_clock_behavior")
+      | .panic .mode => (s, "panic explicit:unexpected_PLL_mode")
+    else (s, "bad-op")
+  | _, _, _, _, _, _ => (s, "bad-op")
+
 def step (s : State) (toks : List String) : State × String :=
   match toks with
   | ["pll.new"] => (ScionTime.Pll.init, "ok")
-  | ["pll.do", e, sec, ns, off, w, pw] =>
-    match parseNat? e, parseInt? sec, parseInt? ns, parseInt? off, parseF? w, (kv? [pw] "pow").bind parseF? with
-    | some e, some sec, some ns, some off, some w, some pw =>
-      if e < 2 ^ 64 ∧ 0 ≤ ns ∧ ns < 1000000000 ∧ -1099511627776 ≤ sec ∧ sec ≤ 1099511627776
-          ∧ minI64 ≤ off ∧ off ≤ maxI64 then
-        match ScionTime.Pll.step s e (sec * 1000000000 + ns) off w pw with
-        | .ok s' acts => (s', s!"ok {fmtState s'}{String.join (acts.map fmtAction)}")
-        | .panic .clock => (s, "panic explicit:unexpected_clock_behavior")
-        | .panic .mode => (s, "panic explicit:unexpected_PLL_mode")
-      else (s, "bad-op")
-    | _, _, _, _, _, _ => (s, "bad-op")
+  | ["pll.do", e, sec, ns, off, w, pw, "rc"] => pllDo s e sec ns off w pw
+  | ["pll.do", e, sec, ns, off, w, pw] => pllDo s e sec ns off w pw
   | _ =>
     match f64Step toks with
     | some r => (s, r)
